@@ -2,7 +2,7 @@
     Statements only.  A stack of views is a chain of path-transforming layers over a root
     backend (Model/Views.v); [root_of c] is where the stack's own root lies in the backend. *)
 From GC Require Import Common.Base Model.Paths Model.Fs Model.Views Proofs.Paths Proofs.Fs Proofs.Views Proofs.NonInterf
-  Model.ViewsCache Proofs.Clean Proofs.ViewsCache.
+  Model.ViewsCache Proofs.Clean Proofs.ViewsCache Model.Cache Proofs.Cache Proofs.CacheFrame.
 
 (** Reduction never yields an empty, "." or ".." component: a successfully reduced path cannot
     name anything above the point it is resolved from. *)
@@ -139,6 +139,198 @@ Example C03_ex_cache_stack :
             (exists c2, cbuild [] [CK (KChild [97]); CKCache; CK (KChild [46;46;47;98])] = Some c2 /\
                         root_of c2 = None /\ resolve true c2 [121] = None).
 Proof. eexists. vm_compute. repeat split. eexists. repeat split. Qed.
+
+(** ** Tree level for stacks with a write-back cache (state of the cache: Model/Cache.v; [Inv] is
+    C06's invariant, which every reachable cache state has; [vlookup] is the tree seen THROUGH
+    the cache, [cR] its remote).
+
+    One operation on a cache, any of the 16, with any raw arguments and whatever it returns
+    (success, error, a directory copy that stops half way): if every destination argument that
+    the cache normalises ([cnorm s = Some p]; the arguments it mutates at are [targets o])
+    lies at or below [b], then seen through the cache no node outside [b] changes, and the
+    only thing that may appear outside is a directory on the way down to [b]. *)
+Theorem C03_cache_confined : forall c o b q,
+  Inv c ->
+  (forall s p, In s (targets o) -> cnorm s = Some p -> is_prefix b p = true) ->
+  is_prefix b q = false ->
+  (forall e, vlookup c q = Some e -> vlookup (fst (cache_step c (COp o))) q = Some e) /\
+  (vlookup c q = None -> vlookup (fst (cache_step c (COp o))) q <> None ->
+   vlookup (fst (cache_step c (COp o))) q = Some D /\ is_prefix q b = true).
+Proof. exact cache_step_outside. Qed.
+Print Assumptions C03_cache_confined.
+
+(** Arguments that the cache rejects (an unrooted climbing path survives path.Clean and is
+    refused by the reduction below) have no effect at all. *)
+Theorem C03_cache_rejected_no_effect : forall c o,
+  (forall s, In s (targets o) -> cnorm s = None) -> fst (cache_step c (COp o)) = c.
+Proof. exact cache_step_rejected. Qed.
+Print Assumptions C03_cache_rejected_no_effect.
+
+(** Whole histories of such operations interleaved with Commits and failed Commits, from ANY
+    cache state satisfying the invariant: the view outside [b] obeys the two clauses. *)
+Theorem C03_cache_history_view_confined : forall b l c q,
+  Inv c -> Forall (cop_under b) l -> is_prefix b q = false ->
+  (forall e, vlookup c q = Some e -> vlookup (run_cache c l) q = Some e) /\
+  (vlookup c q = None -> vlookup (run_cache c l) q <> None ->
+   vlookup (run_cache c l) q = Some D /\ is_prefix q b = true).
+Proof. exact (fun b l c q I H => run_cache_vframe b l c I H q). Qed.
+Print Assumptions C03_cache_history_view_confined.
+
+(** ... and for a cache that starts empty over the remote tree [r0]: after any such history -
+    any number of Commits and failed Commits anywhere - BOTH the view and the REMOTE tree obey
+    the two clauses relative to [r0] (a Commit makes the remote equal to the view, C06_commit;
+    nothing else touches it). *)
+Theorem C03_cache_history_confined : forall b r0 l q,
+  WF r0 -> Forall (cop_under b) l -> is_prefix b q = false ->
+  let c := run_cache (new_cache r0) l in
+  ((forall e, lookup r0 q = Some e -> vlookup c q = Some e) /\
+   (lookup r0 q = None -> vlookup c q <> None -> vlookup c q = Some D /\ is_prefix q b = true)) /\
+  ((forall e, lookup r0 q = Some e -> lookup (cR c) q = Some e) /\
+   (lookup r0 q = None -> lookup (cR c) q <> None -> lookup (cR c) q = Some D /\ is_prefix q b = true)).
+Proof.
+  exact (fun b r0 l q W H Hq =>
+    conj (proj1 (new_cache_history_outside b r0 l W H) q Hq)
+         (proj2 (new_cache_history_outside b r0 l W H) q Hq)).
+Qed.
+Print Assumptions C03_cache_history_confined.
+
+(** Before any successful Commit the remote is not touched at all, whatever the arguments
+    (C06_remote_untouched, restated with failed Commits in the history). *)
+Theorem C03_cache_remote_untouched_before_commit : forall l c,
+  no_commit l = true -> cR (run_cache c l) = cR c.
+Proof. exact run_cache_no_commit_remote. Qed.
+Print Assumptions C03_cache_remote_untouched_before_commit.
+
+(** The link to views.  Cache.Filespace(x) is fshelper.SubFS over the cache: the stack
+    [LSub base :: LCache :: below] with [base] ending in a slash.  A raw argument [s] that the
+    view accepts reaches the cache as the string [base ++ join r] with [r] the reduction of [s],
+    and the cache normalises that string to [cred base ++ r] - or rejects it, exactly when it
+    rejects the base alone. *)
+Theorem C03_cache_view_arg : forall nn base s s',
+  base_ok base -> transform1 nn (LSub base) s = Some s' ->
+  exists r, reduce s = Some r /\ good_path r = true /\ s' = base ++ join r /\
+            cnorm s' = match cred base with Some y => Some (y ++ r) | None => None end.
+Proof. exact sub_cache_arg. Qed.
+Print Assumptions C03_cache_view_arg.
+
+(** So every operation that gets through a view with root [cred base = Some b] satisfies the
+    premise of [C03_cache_confined] for that [b] ... *)
+Theorem C03_cache_view_targets : forall base o o' b,
+  base_ok base -> cred base = Some b ->
+  map_args (fun nn s => transform1 nn (LSub base) s) o = Some o' ->
+  forall s p, In s (targets o') -> cnorm s = Some p -> is_prefix b p = true.
+Proof. exact sub_cache_args_under. Qed.
+Print Assumptions C03_cache_view_targets.
+
+(** ... hence one operation through a child view of a cache (Model/ViewsCache.v
+    [sub_cache_step]) changes nothing outside the view root, seen through the cache; a view whose
+    base climbs out has no effect at all. *)
+Theorem C03_cache_view_confined : forall base c o b q,
+  Inv c -> base_ok base -> cred base = Some b -> is_prefix b q = false ->
+  (forall e, vlookup c q = Some e -> vlookup (fst (sub_cache_step base c o)) q = Some e) /\
+  (vlookup c q = None -> vlookup (fst (sub_cache_step base c o)) q <> None ->
+   vlookup (fst (sub_cache_step base c o)) q = Some D /\ is_prefix q b = true).
+Proof. exact (fun base c o b q I Hb Hc => sub_cache_step_frame base c o b I Hb Hc q). Qed.
+Print Assumptions C03_cache_view_confined.
+
+Theorem C03_cache_view_no_root_no_effect : forall base c o,
+  base_ok base -> cred base = None -> fst (sub_cache_step base c o) = c.
+Proof. exact sub_cache_step_no_root. Qed.
+Print Assumptions C03_cache_view_no_root_no_effect.
+
+(** Mixed histories: the cache used directly with arguments confined to [b], through any number
+    of child views rooted at or below [b] (or with a climbing base) with ANY raw arguments, with
+    Commits and failed Commits anywhere; the cache starts empty over [r0].  View and remote
+    outside [b] are those of [r0] up to directories on the way down to [b]. *)
+Theorem C03_cache_views_history_confined : forall b r0 l q,
+  WF r0 -> Forall (vcop_under b) l -> is_prefix b q = false ->
+  let c := run_vcache (new_cache r0) l in
+  ((forall e, lookup r0 q = Some e -> vlookup c q = Some e) /\
+   (lookup r0 q = None -> vlookup c q <> None -> vlookup c q = Some D /\ is_prefix q b = true)) /\
+  ((forall e, lookup r0 q = Some e -> lookup (cR c) q = Some e) /\
+   (lookup r0 q = None -> lookup (cR c) q <> None -> lookup (cR c) q = Some D /\ is_prefix q b = true)).
+Proof.
+  exact (fun b r0 l q W H Hq =>
+    conj (proj1 (new_cache_views_history_outside b r0 l W H) q Hq)
+         (proj2 (new_cache_views_history_outside b r0 l W H) q Hq)).
+Qed.
+Print Assumptions C03_cache_views_history_confined.
+
+(** A Commit that FAILS half way is confined as well: after any such history, whatever remote a
+    failing Commit leaves behind - some of the pending removals applied, some of the buffer
+    sent, a streamed file cut short (C06's [partial_remote]) - differs from [r0] outside [b] at
+    most by directories on the way down to [b] ... *)
+Theorem C03_cache_failed_commit_confined : forall b r0 l rp q,
+  WF r0 -> Forall (vcop_under b) l ->
+  partial_remote (run_vcache (new_cache r0) l) rp -> is_prefix b q = false ->
+  (forall e, lookup r0 q = Some e -> lookup rp q = Some e) /\
+  (lookup r0 q = None -> lookup rp q <> None -> lookup rp q = Some D /\ is_prefix q b = true).
+Proof. exact (fun b r0 l rp q W H Hp => failed_commit_remote_outside b r0 l rp W H Hp q). Qed.
+Print Assumptions C03_cache_failed_commit_confined.
+
+(** ... and the same from the executable predicate [partial_ok], which the C06 correspondence
+    check evaluates on the remote it observes after every injected failure. *)
+Theorem C03_cache_failed_commit_observed_confined : forall b r0 l rp q,
+  WF r0 -> Forall (vcop_under b) l ->
+  partial_ok (run_vcache (new_cache r0) l) rp = true -> is_prefix b q = false ->
+  (forall e, lookup r0 q = Some e -> lookup rp q = Some e) /\
+  (lookup r0 q = None -> lookup rp q <> None -> lookup rp q = Some D /\ is_prefix q b = true).
+Proof. exact (fun b r0 l rp q W H Hp => failed_commit_observed_outside b r0 l rp W H Hp q). Qed.
+Print Assumptions C03_cache_failed_commit_observed_confined.
+
+(* A cache over a small remote, a child view rooted at [a] (base string a/): two climbing
+   writes and a copy to a climbing destination (all refused by the view), a write and a
+   recursive remove below the root, a failed Commit, a Commit.  The history meets the premise of
+   the theorem; the remote outside [a] is exactly what it was; below [a] the new file arrived and
+   the removed directory is gone. *)
+Definition C03_ex_remote : fs :=
+  [([[97]], D); ([[97];[120]], F [1]); ([[97];[107]], D); ([[97];[107];[121]], F [2]);
+   ([[115]], F [9]); ([[99]], D); ([[99];[104]], F [3])].
+Definition C03_ex_history : list vcop :=
+  [ VSub [97;47] (OWriteFile [46;46;47;115] [7]);
+    VSub [97;47] (OWriteFile [110;47;46;46;47;46;46;47;46;46;47;115] [7]);
+    VSub [97;47] (OCopy [120] [46;46;47;99;47;104]);
+    VSub [97;47] (OWriteFile [110;47;102] [5]);
+    VSub [97;47] (ORemoveAll [107]);
+    VDirect CCommitFault;
+    VDirect CCommit ].
+
+Example C03_ex_cache_history_premise : WF C03_ex_remote /\ Forall (vcop_under [[97]]) C03_ex_history.
+Proof.
+  split; [apply wf_WF; vm_compute; reflexivity|].
+  repeat constructor; exists [97]; reflexivity.
+Qed.
+
+Example C03_ex_cache_history :
+  let c := run_vcache (new_cache C03_ex_remote) C03_ex_history in
+  map (fun v => snd (vcache_step (new_cache C03_ex_remote) v)) (firstn 3 C03_ex_history) = [RErr; RErr; RErr] /\
+  filter (fun qe => negb (is_prefix [[97]] (fst qe))) (cR c)
+    = filter (fun qe => negb (is_prefix [[97]] (fst qe))) C03_ex_remote /\
+  lookup (cR c) [[115]] = Some (F [9]) /\
+  lookup (cR c) [[97];[110];[102]] = Some (F [5]) /\
+  lookup C03_ex_remote [[97];[107];[121]] = Some (F [2]) /\ lookup (cR c) [[97];[107];[121]] = None.
+Proof. vm_compute. repeat split. Qed.
+
+(* the same history stopped before the Commits; a Commit that removes a/k, creates a/n and then
+   fails leaves a remote accepted by [partial_ok], different from the initial one below [a]
+   only *)
+Example C03_ex_cache_failed_commit :
+  let c := run_vcache (new_cache C03_ex_remote) (firstn 5 C03_ex_history) in
+  let rp := [([[97]], D); ([[97];[120]], F [1]); ([[115]], F [9]); ([[99]], D); ([[99];[104]], F [3]);
+             ([[97];[110]], D)] in
+  partial_ok c rp = true /\
+  filter (fun qe => negb (is_prefix [[97]] (fst qe))) rp
+    = filter (fun qe => negb (is_prefix [[97]] (fst qe))) C03_ex_remote /\
+  lookup rp [[97];[110];[102]] = None /\ vlookup c [[97];[110];[102]] = Some (F [5]).
+Proof. vm_compute. repeat split. Qed.
+
+(* The premise is not vacuous the other way either: used DIRECTLY (no view), the cache clamps a
+   rooted climbing argument like path.Clean does and the write lands at the cache's own root -
+   outside [a]; such an operation does not satisfy [cop_under [a]]. *)
+Example C03_ex_cache_direct_clamped :
+  cnorm [47;46;46;47;115] = Some [[115]] /\
+  vlookup (fst (cache_step (new_cache C03_ex_remote) (COp (OWriteFile [47;46;46;47;115] [7])))) [[115]] = Some (F [7]).
+Proof. vm_compute. split; reflexivity. Qed.
 
 (** Non-vacuity. *)
 Example C03_ex_stack :
